@@ -495,7 +495,8 @@ POLY_PAIRS = [("a", "b"), ("b", "a"), ("2a+3b", "-2a+c"), ("a+ab+b", "-a-ab"), (
               ("c+d", "5+a"), ("tiny a + b", "tiny 2a + b"), ("0.5a", "-0.25a+b"), ("tiny a + b", "0.5a")]
 
 
-@rule("C17.polynomial-arith", props=["C17", "C02", "C03", "C04", "C05", "C06", "C07", "C11", "C19"], min_instances=65, mutants=[
+@rule("C17.polynomial-arith", props=["C17", "C02", "C03", "C04", "C05", "C06", "C07", "C11", "C19"], min_instances=71, mutants=[
+    ("power of a single monomial repeats its variable list (unsorted)", ("polynomial", "    def __pow__(self, power, modulo=None):\n        *_, last = power_supply(self, power)\n        return last\n\n    def __truediv__(self, other):\n        if isinstance(other, self.__class__):\n            return RationalPolynomial(self, other)", "    def __pow__(self, power, modulo=None):\n        if len(self.args) == 1 and power > 0:\n            coeff, *variables = self.args[0]\n            return self.__class__([[coeff ** power, *variables * power]])\n        *_, last = power_supply(self, power)\n        return last\n\n    def __truediv__(self, other):\n        if isinstance(other, self.__class__):\n            return RationalPolynomial(self, other)")),
     ("division by an integer floors the coefficients", ("polynomial", "        # Assume scalar\n        return self * (1 / other)", "        # Assume scalar\n        if isinstance(other, int):\n            return self.__class__([[monomial[0] // other, *monomial[1:]] for monomial in self.args])\n        return self * (1 / other)")),
     ("merged coefficient appended unconditionally", ("polynomial", "                if ea[0] != 0:\n                    res.append(ea)", "                res.append(ea)")),
     ("merge advances only one cursor on equal monomials", ("polynomial", "                ai += 1\n                bi += 1\n        return self.__class__(res)", "                ai += 1\n        return self.__class__(res)")),
@@ -555,6 +556,20 @@ def polynomial_arith(ctx):
             except NoValue as exc:
                 raise Unknown(c, str(exc), fn)
             _check_poly(ctx, c, fn, out, spec(poly_from_args(POLY_REPS[l])), f"{num} {meth} ({l})")
+    # integer powers (repeated products): value and well-formedness of the result
+    q = f"{P}.__pow__"
+    fn = ctx.func(q)
+    for l, k in (("ab", 2), ("-3b", 3), ("2a+3b", 2), ("5+a", 3), ("a", 1), ("a^2", 2)):
+        c = f"{q}#({l}),{k}"
+        it = new_interp(repo)
+        try:
+            out = it.run(q, [mk(it, "Polynomial", [list(m) for m in POLY_REPS[l]]), k])
+        except NoValue as exc:
+            raise Unknown(c, str(exc), fn)
+        want = Poly.const(1)
+        for _ in range(k):
+            want = want * poly_from_args(POLY_REPS[l])
+        _check_poly(ctx, c, fn, out, want, f"({l}) ** {k}")
     # division by a plain number (the 1/k! of the outer exponential, the n/i of the iterative inverse): exact for the
     # representatives (odd coefficients divided by 2, 4 and 0.5)
     q = f"{P}.__truediv__"
